@@ -85,12 +85,14 @@ def make_library(seed, diag_cls, par, level=0.0):
     # the second treatment series is shorter (the control series are cut to the length of the current treatment series),
     # and the fourth control series is constant (no regression fit exists)
     ys[1] = ys[1][:n - 9]
-    xs.append(np.full(n, 37.0))
+    xs.append([37] * n)
+    # the second control series is integer-typed (counts): a later real-valued series must not inherit its dtype
+    xs[1] = np.rint(xs[1]).astype(np.int64)
     if level:
       # the same shapes on top of a level that dwarfs the variation: two different series are then "close" in
       # relative terms although every derived quantity differs
       ys = [v + level for v in ys]
-      xs = [v + level for v in xs]
+      xs = [(np.asarray(v) + int(level) if np.asarray(v).dtype.kind == 'i' else np.asarray(v) + level) for v in xs]
     fresh = {}
     for yi in (1, 2):
       for xi in (0, 1, 2, 3, 4):
